@@ -70,7 +70,7 @@ structure RowsStage where
 def ZERO_COL_ROW_CAP : Nat := 1000
 
 def rowsStage (r : RawRows) (cached : Option ResultMeta) (s : St) : RowsStage × St :=
-  match deserMetadata r cached { s with buf := r.raw } with
+  match deserMetadata r cached s with
   | (.err k, s') => (⟨.err k, [], none⟩, s')
   | (.ok d, s') =>
     let ncols := d.rmeta.cols.length
